@@ -49,3 +49,12 @@ claim("C11",
       "findings as as-built deviations; sums/differences, random attitudes, rotate_by and average are checked to be real "
       "unit quaternions.",
       "TLA+ Constructors decision table + TLC + replay and trace validation", "DESIGN.md section 5, C11")
+claim("C04",
+      "SensorWorld.tla holds the per-route convention table (gravity reference, magnetic reference form, direction type A/B), the "
+      "Measure/Estimate machine and the GeneralPosition predicate; TLC checks WellPosed and Recovers for every attitude x dip x "
+      "convention x scaling (it excluded OLEQ's collinear reference pair at dip 0 by counterexample) and emits exact integer "
+      "measurement vectors; 40 estimator routes (constructor and estimate(), all modes/frames/representations) are fed these "
+      "measurements at several positive scalings and the rotation matrix of the output must equal the exact matrix of the ghost "
+      "attitude (all attitudes for the singularity-free class, general position for the closed-form class); the observed calls "
+      "are abstracted and validated by TraceSensorWorld.",
+      "TLA+ SensorWorld + TLC + exact replay and trace validation", "DESIGN.md section 5, C04")
